@@ -185,7 +185,9 @@ def gen_query(rng):
             if jt == "CROSS JOIN":
                 join = sp() + kw(jt) + " t3"
             else:
-                join = sp() + kw(jt) + " t2 " + rng.choice(["ON t2.a = t1.a", "ON t1.a = t2.a", "USING (a)", "ON t1.a = t2.a AND t2.d > 0", "ON t2.d = t1.b"])
+                join = sp() + kw(jt) + " t2 " + rng.choice(["ON t2.a = t1.a", "ON t1.a = t2.a", "USING (a)", "ON t1.a = t2.a AND t2.d > 0", "ON t2.d = t1.b",
+                                                           "ON t2.a = t1.a + 1", "ON t2.d < t1.b - 1", "ON t2.a = t1.a AND t2.d >= t1.b + 1", "ON t2.d > t1.b * 2",
+                                                           "ON t2.a = t1.a - t1.b", "ON t2.a <> t1.a OR t2.d = t1.b", "ON t2.a = coalesce(t1.a, 0)", "ON t2.a + 1 = t1.a"])
                 items2 = [("t1." + i if re.fullmatch(r"[ab]", i.split(" ")[0]) else i) for i in items]
                 # ambiguous unqualified `a` would not run; the query is skipped then
         where = (sp() + kw("WHERE") + " " + cond(tbl)) if rng.random() < 0.5 else ""
